@@ -172,6 +172,21 @@ def check_program(item):
         except cbuild.BuildError:
             for kind, where, c, msg, ov in found[:1]:
                 res["problems"].append(dict(kind="spin-" + kind, what="machine diverges: %s (%s); C did not build" % (msg, where), input="", state=-1, ctx={}))
+    # the C itself (code generation can introduce a cycle the machine does not have): exhaustive short inputs under a wall-clock limit
+    if not found and item.get("c_hang_search"):
+        try:
+            with cbuild.CProg(acc, "gcc") as cp:
+                from checks import c02
+                hreps = c02.pick_reps(am, None, 6)
+                recs, status = cp.run(cp.op_exhaust(4, hreps, do_end=am.eof), timeout=20)
+                res["forced"] += 1
+                if status == "timeout":
+                    res["confirmed"] += 1
+                    res["problems"].append(dict(kind="c-hang", what="the C binary does not return on some input of length <= 4 over %r although the machine shows no divergence (code generation)" % (hreps,), input="", state=-1, ctx={}))
+                elif status == "ok" and recs and recs[0][1].get("invariant_hits"):
+                    pass
+        except cbuild.BuildError:
+            pass
     # converse: REF non-consuming cycles in an accepted program
     if item.get("ast") is not None and not found:
         try:
@@ -192,18 +207,19 @@ def run(tier, seed):
     items = []
     for i, p in enumerate(cyc_universe()):
         ast = tuple(p)
-        items.append(dict(label="CYC#%d" % i, src=U.source(ast), argv=U.needs_flags(ast), ast=ast))
+        items.append(dict(label="CYC#%d" % i, src=U.source(ast), argv=U.needs_flags(ast), ast=ast, c_hang_search=(i % 5 == seed % 5 or tier == "thorough")))
         if i % 3 == seed % 3:
             items.append(dict(label="CYC#%d" % i, src=U.source(ast), argv=U.needs_flags(ast) + ["-O3"], ast=ast))
     for p in progs.corpus() + progs.features():
-        items.append(dict(label=p["label"], src=p["src"], argv=p["argv"], ast=None))
-        items.append(dict(label=p["label"], src=p["src"], argv=p["argv"] + ["-O3"], ast=None))
+        items.append(dict(label=p["label"], src=p["src"], argv=p["argv"], ast=None, c_hang_search=True))
+        items.append(dict(label=p["label"], src=p["src"], argv=p["argv"] + ["-O3"], ast=None, c_hang_search=True))
     step = 7 if tier == "quick" else 1
     for i, p in enumerate(U.enumerate_programs(2)):
         if i < 992 or i % step == seed % step:
             items.append(dict(label="U#%d" % i, src=U.source(p), argv=U.needs_flags(p), ast=p))
     for j, p in enumerate(U.handwritten()):
-        items.append(dict(label="HW#%d" % j, src=U.source(tuple(p)), argv=U.needs_flags(tuple(p)), ast=tuple(p)))
+        items.append(dict(label="HW#%d" % j, src=U.source(tuple(p)), argv=U.needs_flags(tuple(p)), ast=tuple(p), c_hang_search=True))
+        items.append(dict(label="HW#%d" % j, src=U.source(tuple(p)), argv=U.needs_flags(tuple(p)) + ["-O3"], ast=tuple(p), c_hang_search=True))
     stats = dict(enumerated=len(items), accepted=0, rejected=0, capped=0, divergences_confirmed_on_C=0)
     for idx, r in pmap(check_program, items, timeout=600, chunksize=4, stop=ck.enough):
         if "harness_error" in r or "harness_timeout" in r:
@@ -230,9 +246,59 @@ def run(tier, seed):
     return ck.finish()
 
 
+CONSUMING = ("match", "append", "wait", "case")
+
+
+def consumes(stmts):
+    return any(st[0] in CONSUMING for st in U.walk(tuple(stmts)))
+
+
+def kf9_shape(ast):
+    """known finding KF9, structurally: (a) inside a loop, a try that catches out-of-space around an append, whose handler neither consumes
+    nor empties / reassigns a buffer; (b) a break inside an action-only `if` that sits in a non-consuming path of a loop nested in a loop.
+    NOT KF9: an append located inside a catch block (that was the repaired defect F-17)."""
+    if ast is None:
+        return False
+    for st in U.walk(tuple(ast)):
+        if st[0] == "try":
+            if any(x[0] in ("append", "appendc") for x in U.walk(tuple(st[3]))):
+                return False
+    def in_loop(stmts, depth):
+        for st in stmts:
+            k = st[0]
+            if k == "loop":
+                if in_loop(st[2], depth + 1):
+                    return True
+            elif k == "try":
+                catches_oos = st[2] is None or "outofspace" in st[2]
+                appends = any(x[0] in ("append", "appendc") for x in U.walk(tuple(st[1])))
+                handler_inert = not consumes(st[3]) and not any(x[0] in ("delete", "setstr") for x in U.walk(tuple(st[3])))
+                if depth > 0 and catches_oos and appends and handler_inert:
+                    return True
+                if in_loop(st[1], depth) or in_loop(st[3], depth):
+                    return True
+            elif k == "if":
+                bodies = [b for _, b in st[1]] + ([st[2]] if st[2] is not None else [])
+                if depth > 0 and any(any(x[0] == "break" for x in U.walk(tuple(b))) and not consumes(b) for b in bodies):
+                    return True
+                if any(in_loop(b, depth) for b in bodies):
+                    return True
+            elif k == "case":
+                if any(in_loop(b, depth) for _, _, b in st[2]):
+                    return True
+            elif k in ("optional",):
+                if in_loop(st[1], depth):
+                    return True
+            elif k == "foreach":
+                if in_loop(st[1], depth):
+                    return True
+        return False
+    return in_loop(tuple(ast), 0)
+
+
 def classify(it, p):
     """structural predicates for known findings"""
-    if p["kind"].startswith("spin-") and p.get("via_override"):
+    if p["kind"].startswith("spin-") and p.get("via_override") and kf9_shape(it.get("ast")):
         return "C04:KF9:nonconsuming-cycle-through-override-target"
     return None
 
